@@ -1287,7 +1287,82 @@ func c02Histories(n *c02Net, all []*c02Block, thorough bool) {
 		}
 		return it
 	}
+	// directed shape: some keys are ALREADY STORED (through an earlier offer or getter call) when a multi-item batch
+	// arrives that carries those keys at early positions, followed by fresh items; afterwards the getters read back
+	// what was stored.  Aims at any confusion between positions in the batch and positions in the list of new items.
+	genuineItem := func(b *c02Block, t byte) c02Item { return c02Item{key: b.key(t), content: b.content(t), src: b.header} }
+	directed := func() []c02Op {
+		n.e.c.Count("hist_directed")
+		var ops []c02Op
+		nblk := 2 + r.Intn(3)
+		var its []c02Item
+		seen := map[string]bool{}
+		for len(its) < nblk {
+			t := []byte{1, 2, 1, 2, 0, 3}[r.Intn(6)]
+			b := pick(t)
+			it := genuineItem(b, t)
+			if t == 0 || t == 3 { // only headers whose proof verifies can be stored
+				b = hdrs[r.Intn(len(hdrs))]
+				it = genuineItem(b, t)
+			}
+			if seen[string(it.key)] {
+				continue
+			}
+			seen[string(it.key)] = true
+			its = append(its, it)
+		}
+		// which items are stored beforehand: a non-empty proper subset, biased to the early positions
+		pre := make([]bool, nblk)
+		pre[0] = r.Intn(4) != 0
+		for i := 1; i < nblk-1; i++ {
+			pre[i] = r.Intn(3) == 0
+		}
+		if !pre[0] && nblk > 2 {
+			pre[1] = true
+		}
+		for i, it := range its {
+			if !pre[i] {
+				continue
+			}
+			hash := it.key[1:]
+			if it.key[0] <= 2 && len(it.content) <= c02Direct && r.Bool() {
+				ops = append(ops, c02Op{getter: int(it.key[0]), hash: hash, src: it.src, remote: it.content})
+			} else {
+				ops = append(ops, c02Op{getter: -1, items: []c02Item{it}})
+			}
+		}
+		// the batch: stored keys keep their position; their offered bytes are the stored ones, junk, or another item's
+		batch := c02Op{getter: -1}
+		for i, it := range its {
+			o := it
+			if pre[i] {
+				switch r.Intn(3) {
+				case 0:
+					o.content = r.Bytes(1 + r.Intn(40))
+				case 1:
+					o.content = its[(i+1)%nblk].content
+				}
+			}
+			batch.items = append(batch.items, o)
+		}
+		ops = append(ops, batch)
+		// read back through the getters (local hit expected for everything stored)
+		for _, it := range its {
+			if it.key[0] <= 2 && r.Intn(4) != 0 {
+				op := c02Op{getter: int(it.key[0]), hash: it.key[1:], src: it.src}
+				if len(it.content) <= c02Direct {
+					op.remote = it.content
+				}
+				ops = append(ops, op)
+			}
+		}
+		return ops
+	}
 	for i := 0; i < count; i++ {
+		if i%3 == 0 {
+			n.runHist(directed())
+			continue
+		}
 		var ops []c02Op
 		for j := 1 + r.Intn(4); j > 0; j-- {
 			if r.Intn(2) == 0 {
